@@ -33,6 +33,7 @@ DEFECTS = [
     ("ft-fd-leak", "ft"),
     ("extension-node-leak", "ext"),
     ("cleanup-extension-close-skipped", "extclose"),
+    ("disable-extension-node-leak", "extdis"),
 ]
 HARMFUL = ("eof", "reset", "stall")
 KINDS = ("eof", "reset", "stall", "short", "again")
@@ -62,7 +63,7 @@ class Line:
         ev = parts[0].split()
         i = 0
         while i < len(ev):
-            if ev[i] in ("new", "close", "gone", "kbd", "xnew", "xinit") and i + 1 < len(ev):
+            if ev[i] in ("new", "close", "gone", "kbd", "xnew", "xinit", "xdrop") and i + 1 < len(ev):
                 self.events.append((ev[i], ev[i + 1])); i += 2
             elif ev[i] in ("hook", "ret", "fault", "uac", "xclose") and i + 2 < len(ev):
                 self.events.append((ev[i], ev[i + 1], ev[i + 2])); i += 3
@@ -127,7 +128,8 @@ def oracle(script, impl, stderr="", faulted=()):
             if e[0] == "xinit":
                 xinit[e[1]] = xinit.get(e[1], 0) + 1
                 if xinit[e[1]] > 1: bad.append(("extension init hook ran %d times for %s (op %r)" % (xinit[e[1]], e[1], op), e[1]))
-            if e[0] == "xclose" and e[2] == "d":
+            if (e[0] == "xclose" and e[2] == "d") or e[0] == "xdrop":
+                # the data goes to the close hook, or (extension disabled) to rfbDisableExtension's free()
                 xclosed[e[1]] = xclosed.get(e[1], 0) + 1
                 if xclosed[e[1]] > xnew.get(e[1], 0): bad.append(("extension close hook got data %d times for %s (op %r)" % (xclosed[e[1]], e[1], op), e[1]))
             if e[0] == "uac": bad.append(("descriptor of %s used after close (%s) at op %r" % (e[1], e[2], op), e[1]))
@@ -418,7 +420,7 @@ class Gen:
         r = self.rng
         # triggers of defects the code under test still has are generated too, but rarely (the model
         # attributes those runs to the finding; every other run keeps a fully sensitive leak check)
-        if r.random() < (0.25 if self.v[5] else 0.04): self.emit("ext")
+        if r.random() < (0.25 if self.v[5] else 0.04): self.emit(r.choice(["ext", "ext rev"]))
         if r.random() < 0.2: self.emit("pw"); self.pw = True
         if r.random() < 0.1: self.emit("cursor")
         for _ in range(nops):
@@ -446,8 +448,12 @@ class Gen:
                 self.emit("pump")
             elif x < 0.90:
                 self.emit("refuse c%d" % r.randrange(len(self.c)))
-            elif x < 0.93:
+            elif x < 0.92:
                 self.emit("kbdclose c%d" % r.randrange(len(self.c)))
+            elif x < 0.93:
+                i = r.randrange(len(self.c))
+                rare = not self.v[7] and r.random() > 0.25      # trigger of a defect the code still has: rarely
+                if not rare: self.emit(r.choice(["extrefuse c%d", "extdrop c%d", "extadd c%d", "extadd c%d"]) % i)
             elif x < 0.95 and len(self.c) >= 2:
                 a, b = r.sample(range(len(self.c)), 2); self.emit("gonekick c%d c%d" % (a, b))
             elif x < 0.96:
@@ -540,6 +546,10 @@ def scenario_scripts(variant):
            "out c0", "appclose c8"]
     S["population-shutdown"] = POP + ["shutdown0", "shutdown", "cleanup", "end"]
     S["population-cleanup"] = POP + ["cleanup", "end"]
+    S["ext-toggle"] = ["ext"] + W + ["conn c1 hook=accept", "extrefuse c1", "ver c1", "sec c1", "init c1 1", "extadd c1", "extadd c1",
+                           "req c1", "extdrop c1", "extdrop c1", "extadd c1", "conn c2 hook=accept", "ver c2", "extdrop c2",
+                           "closepeer c1"] + E
+    S["ext-toggle-rev"] = ["ext rev"] + S["ext-toggle"][1:]     # the node with data is not the list head
     S["handshake"] = ["conn c0 hook=accept", "ver c0", "sec c0", "init c0 1", "req c0", "shutdown", "cleanup", "end"]
     S["handshake-auth"] = ["pw", "conn c0 hook=accept", "ver c0", "sec c0", "auth c0 ok", "init c0 1", "conn c1 hook=accept", "ver c1",
                            "sec c1", "auth c1 bad", "conn c2 hook=accept", "ver c2", "sec c2", "partial c2", "conn c3 hook=accept",
